@@ -353,6 +353,55 @@ pub fn gen_client(r: &mut Rng, tag: &str, focus: Focus) -> String {
     format!("sim {} {}", tag, cmds.join(" ; "))
 }
 
+/// C05, the verify clause: a resolved instance with long TTLs, one verify request with a
+/// time-out of 1.5 .. 10 s, answered never / once before the daemon's resend at +1 s / once
+/// after it / twice / only with the SRV or only with the addresses, then silence until well
+/// past request + time-out (+ 1 s): ServiceRemoved exactly at the deadline when unanswered, and
+/// none at all when an answer restored the records.
+pub fn gen_verify(r: &mut Rng, tag: &str) -> String {
+    let mut cmds: Vec<String> = vec![format!("daemon 1 {} 2 192.168.1.10 24", hx("eth0"))];
+    cmds.push("ipint 0 100000".to_string());
+    let inst = gen_inst(r, 0);
+    let ci = CInst { ptr_name: inst.ty.clone(), addr_owner: inst.host.clone(), inst, ptr_flush: false };
+    let long = Ttls { ptr: 4500, srv: *r.pick(&[120u32, 4500]), txt: 4500, addr: *r.pick(&[120u32, 4500]) };
+    let rs = recs(&ci, &long, true);
+    let inj = |p: &str| format!("inject 0 2 1 192.168.1.50 5353 {}", p);
+    let resp = |a: &[RecDesc], b: &[RecDesc]| message(0x8400, vec![], a, &[], b);
+    let mut now = 1_000_000u64;
+    cmds.push(format!("run {}", now));
+    cmds.push(format!("browse 0 1 {}", hx(&ci.ptr_name)));
+    cmds.push(format!("run {}", now));
+    cmds.push(inj(&resp(&rs[..1], &rs[1..])));
+    now += *r.pick(&[100u64, 1500, 3000, 20_000]);
+    cmds.push(format!("run {}", now));
+    let ms = *r.pick(&[1500u64, 3000, 5000, 10_000]);
+    let full = format!("{}.{}", ci.inst.label, ci.inst.ty);
+    cmds.push(format!("verify 0 {} {}", hx(&full), ms));
+    let tv = now;
+    let answer = match r.below(3) {
+        0 => resp(&rs[1..], &[]),
+        1 => resp(&rs[1..2], &[]),
+        _ => resp(&rs[3..], &[]),
+    };
+    // offsets of the answers after the request
+    let early = r.range(50, 950);
+    let late = r.range(1050, ms.saturating_sub(100).max(1100));
+    let offs: Vec<u64> = match r.below(5) {
+        0 => vec![],
+        1 | 2 => vec![early],
+        3 => vec![late],
+        _ => vec![early, late],
+    };
+    for o in offs {
+        now = tv + o;
+        cmds.push(format!("run {}", now));
+        cmds.push(inj(&answer));
+    }
+    now = tv + ms + *r.pick(&[500u64, 1500, 3000, 9000]);
+    cmds.push(format!("run {}", now));
+    format!("sim {} {}", tag, cmds.join(" ; "))
+}
+
 pub fn generate(r: &mut Rng, prop: &str, tier: &str, emit: &mut dyn FnMut(String)) {
     let n = if tier == "thorough" { 3000 } else { 300 };
     let (tag, focus): (&'static str, Focus) = match prop {
@@ -361,6 +410,10 @@ pub fn generate(r: &mut Rng, prop: &str, tier: &str, emit: &mut dyn FnMut(String
         _ => ("C05", Focus::Depart),
     };
     for k in 0..n {
+        if prop == "C05" && k % 10 == 9 {
+            emit(gen_verify(r, tag));
+            continue;
+        }
         if k % 4 == 3 {
             // the shared scripted-responder generator (also used by C12)
             let steps = r.range(3, 12);
